@@ -313,8 +313,8 @@ Section Rules.
   (* ---------------------------------------------------------------- basis.py *)
   (* entry-level alias prediction: "earned_premium" is the very object held by next_values, every
      other entry is a number or a fresh array *)
-  Lemma sat_values_combine op swap a next :
-    sat h0 (values_combine op swap a next)
+  Lemma sat_values_combine c op swap a next :
+    sat h0 (values_combine c op swap a next)
         (fun d => forall dn l, next = PRef l -> l < length h0 -> nth_error h0 l = Some (ODict dn) ->
                   Forall (fun kv => if (fst kv =? EP)%Z then dget EP dn = Some (snd kv)
                                     else fresh h0 (snd kv)) d).
@@ -325,17 +325,18 @@ Section Rules.
     eapply sat_weaken.
     - apply sat_mapM_all with
         (Q := fun kv => if (fst kv =? EP)%Z then dget EP dn = Some (snd kv) else fresh h0 (snd kv)).
-      intros kv. destruct (dget (fst kv) dn) eqn:G; [|apply sat_raise].
-      destruct (fst kv =? EP)%Z eqn:K.
+      intros k. destruct (dget k da) eqn:Ga; [|apply sat_raise].
+      destruct (dget k dn) eqn:G; [|apply sat_raise].
+      destruct (k =? EP)%Z eqn:K.
       + apply sat_ret; simpl. rewrite K. apply Z.eqb_eq in K. rewrite <- K. auto.
       + eapply sat_bind with (P := fresh h0); [destruct swap; apply sat_binop|].
         intros r Fr. apply sat_ret; simpl. rewrite K; auto.
     - intros d Hd dn' l E Hl N. specialize (Hdn l E Hl). rewrite N in Hdn.
       inversion Hdn; subst; auto.
   Qed.
-  Lemma sat_values_add a b : sat h0 (values_add a b) (fresh h0).
+  Lemma sat_values_add c a b : sat h0 (values_add c a b) (fresh h0).
   Proof. unfold values_add. eapply sat_bind; [apply sat_values_combine|]. intros; apply sat_new_dict. Qed.
-  Lemma sat_values_diff a b : sat h0 (values_diff a b) (fresh h0).
+  Lemma sat_values_diff c a b : sat h0 (values_diff c a b) (fresh h0).
   Proof. unfold values_diff. eapply sat_bind; [apply sat_values_combine|]. intros; apply sat_new_dict. Qed.
   Lemma sat_deepcopy_items v : sat h0 (deepcopy_items v) (Forall (fun kv => fresh h0 (snd kv))).
   Proof.
